@@ -22,7 +22,9 @@ fn run_plain(sub: &str) -> Value {
 
 fn run_plain_tz(sub: &str, tz: &str) -> Value {
     let dir = util::fresh_dir("plain");
-    let mut cmd = Command::new(PLAIN);
+    // development aid: another build of the companion binary
+    let bin = std::env::var("ITV_PLAIN_BIN").unwrap_or_else(|_| PLAIN.to_string());
+    let mut cmd = Command::new(&bin);
     cmd.args([sub, dir.to_str().unwrap()]);
     if !tz.is_empty() {
         cmd.env("TZ", tz);
@@ -73,4 +75,15 @@ pub fn wallclock_plain() -> Vec<(String, i64, String)> {
         );
     }
     all
+}
+
+/// Ageing leg from the hooks-off binary: (label, expires, started past expiry, returned past expiry, outcome).
+pub fn ageing_plain() -> Vec<(String, String, f64, f64, String)> {
+    run_plain("ageing")
+        .as_array()
+        .cloned()
+        .unwrap_or_default()
+        .into_iter()
+        .map(|e| (e["label"].as_str().unwrap_or("").to_string(), e["expires"].as_str().unwrap_or("").to_string(), e["started_past_expiry_s"].as_f64().unwrap_or(0.0), e["returned_past_expiry_s"].as_f64().unwrap_or(0.0), e["outcome"].as_str().unwrap_or("").to_string()))
+        .collect()
 }
